@@ -332,7 +332,22 @@ def wsrc (s : St) : Fsm → WSrc
 def wst (s : St) : Fsm → Nat
   | .cmd => s.writeState
   | .uns => s.uwriteState
+/-- machine `f` has a unit ready and waits for the output -/
+def waiting (s : St) : Fsm → Prop
+  | .cmd => s.state = .flushWait
+  | .uns => s.ustate = .flushWait
 end St
+
+/-- how a unit starts: cursor at 0, either at the opening line break of a framed unit or at the
+text of a raw one (a command-list line) -/
+structure Entry (s : St) (f : Fsm) : Prop where
+  pos : s.pos f = 0
+  src : (s.wst f = 0 ∧ ∃ off, off ≤ 1 ∧ s.wsrc f = .nl off) ∨ (s.wst f = 2 ∧ s.wsrc f = .main)
+
+theorem waiting_ph {s : St} {f : Fsm} (h : s.waiting f) : s.ph f = .flush := by
+  cases f
+  · simp only [St.waiting] at h; simp [St.ph, h, CState.ph]
+  · simp only [St.waiting] at h; simp [St.ph, h, UState.ph]
 
 /-- output and handler-visible text of machine `f` end inside its region:
 * while a unit is being flushed from the region the cursor has a NUL ahead of it, inside the region;
@@ -344,6 +359,7 @@ structure OobF (D : Desc) (s : St) (f : Fsm) : Prop where
   nl : s.ph f = .flush → ∀ off, s.wsrc f = .nl off → off + s.pos f ≤ 2
   first : s.ph f = .flush → s.wst f = 0 → HasNul D s f 0
   loop : s.ph f = .loop → NulAt D s f
+  wait : s.waiting f → Entry s f
 
 /-- the argument text of the command machine ends inside the command region -/
 structure OobA (D : Desc) (s : St) : Prop where
@@ -351,10 +367,10 @@ structure OobA (D : Desc) (s : St) : Prop where
   wargs : s.state = .parseWriteArgs → HasNul D s .cmd s.position
 
 theorem OobF.other {D : Desc} {s : St} {f : Fsm} (h : s.ph f = .other) : OobF D s f :=
-  ⟨by simp [h], by simp [h], by simp [h], by simp [h]⟩
+  ⟨by simp [h], by simp [h], by simp [h], by simp [h], fun w => by have := waiting_ph w; simp [h] at this⟩
 
 theorem OobF.ofLoop {D : Desc} {s : St} {f : Fsm} (h : s.ph f = .loop) (hn : NulAt D s f) : OobF D s f :=
-  ⟨by simp [h], by simp [h], by simp [h], fun _ => hn⟩
+  ⟨by simp [h], by simp [h], by simp [h], fun _ => hn, fun w => by have := waiting_ph w; simp [h] at this⟩
 
 /-- what the descriptor must provide (DESIGN.md 2.3): the match-state lanes of all commands fit
 the command region (the `assert` of `cat_init`, for the command half), the result code `ERROR`
@@ -383,16 +399,18 @@ theorem OobStep.of_eq {D : Desc} {f : Fsm} {s t u : St} (h : t.oob = s.oob) (h2 
 theorem startFlush_oobF (D : Desc) (s : St) (f : Fsm) (a : After) (h : HasNul D s f 0) : OobStep D f s (startFlush s f a) := by
   have hb : HasNul D (startFlush s f a) f 0 := h.congr (startFlush_buf s f a)
   cases f
-  · refine ⟨rfl, ⟨?_, ?_, ?_, ?_⟩⟩
+  · refine ⟨rfl, ⟨?_, ?_, ?_, ?_, ?_⟩⟩
     · intro _ h2; simp [startFlush, St.wsrc, St.emit] at h2
     · intro _ off h2; simp [startFlush, St.wsrc, St.emit, nlOff] at h2; simp [startFlush, St.pos, St.emit]; subst h2; split <;> omega
     · intro _ _; exact hb
     · intro h2; simp [startFlush, St.ph, CState.ph, St.emit] at h2
-  · refine ⟨rfl, ⟨?_, ?_, ?_, ?_⟩⟩
+    · intro _; exact ⟨by simp [startFlush, St.pos, St.emit], Or.inl ⟨by simp [startFlush, St.wst, St.emit], nlOff s, by unfold nlOff; split <;> omega, by simp [startFlush, St.wsrc, St.emit]⟩⟩
+  · refine ⟨rfl, ⟨?_, ?_, ?_, ?_, ?_⟩⟩
     · intro _ h2; simp [startFlush, St.wsrc, St.emit] at h2
     · intro _ off h2; simp [startFlush, St.wsrc, St.emit, nlOff] at h2; simp [startFlush, St.pos, St.emit]; subst h2; split <;> omega
     · intro _ _; exact hb
     · intro h2; simp [startFlush, St.ph, UState.ph, St.emit] at h2
+    · intro _; exact ⟨by simp [startFlush, St.pos, St.emit], Or.inl ⟨by simp [startFlush, St.wst, St.emit], nlOff s, by unfold nlOff; split <;> omega, by simp [startFlush, St.wsrc, St.emit]⟩⟩
 
 theorem strncpyC_nul (D : Desc) (s : St) (str : List Byte) (h : str.length < D.cmdCap) :
     getB D (strncpyC D s str) .cmd str.length = 0 := by
@@ -911,11 +929,18 @@ theorem Calm.oobF {D : Desc} {s s' : St} {f : Fsm} (h : Calm s s') (o : OobF D s
   have e1 := h.ph f
   have e2 := h.pos f
   have e3 := h.wsrc f
-  refine ⟨?_, ?_, ?_, ?_⟩
+  refine ⟨?_, ?_, ?_, ?_, ?_⟩
   · intro a b; rw [e2]; exact (o.main (e1 ▸ a) (e3.1 ▸ b)).congr h.b
   · intro a off b; rw [e2]; exact o.nl (e1 ▸ a) off (e3.1 ▸ b)
   · intro a b; exact (o.first (e1 ▸ a) (e3.2 ▸ b)).congr h.b
   · intro a; exact h.nulAt (o.loop (e1 ▸ a))
+  · intro a
+    have w : s.waiting f := by
+      cases f
+      · simp only [St.waiting] at a ⊢; rw [← h.c.2.2.2.2.2.2.2.1]; exact a
+      · simp only [St.waiting] at a ⊢; rw [← h.u.1]; exact a
+    have := o.wait w
+    exact ⟨by rw [e2]; exact this.pos, by rw [e3.1, e3.2]; exact this.src⟩
 
 theorem applyNested_ph (D : Desc) (f : Fsm) (e : Bool) (acts : List Nested) (s : St) (g : Fsm) :
     (applyNested D f e s acts).ph g = s.ph g := by
@@ -1088,10 +1113,10 @@ theorem processIoWrite_oob {D : Desc} (s : St) (i : SvcIn) (hs : s.state = .flus
     · split
       · rename_i h0
         have h0' : s.writeState = 0 := by simpa using h0
-        refine ⟨rfl, ⟨fun _ _ => ?_, fun _ off h => by simp [St.wsrc] at h, fun _ h => by simp [St.wst] at h, fun h => by simp [St.ph, hs, CState.ph] at h⟩⟩
+        refine ⟨rfl, ⟨fun _ _ => ?_, fun _ off h => by simp [St.wsrc] at h, fun _ h => by simp [St.wst] at h, fun h => by simp [St.ph, hs, CState.ph] at h, fun h => by simp [St.waiting, hs] at h⟩⟩
         exact (ofirst h0').congr (by simp)
       · split
-        · refine ⟨rfl, ⟨fun _ h => by simp [St.wsrc] at h, fun _ off h => ?_, fun _ h => by simp [St.wst] at h, fun h => by simp [St.ph, hs, CState.ph] at h⟩⟩
+        · refine ⟨rfl, ⟨fun _ h => by simp [St.wsrc] at h, fun _ off h => ?_, fun _ h => by simp [St.wst] at h, fun h => by simp [St.ph, hs, CState.ph] at h, fun h => by simp [St.waiting, hs] at h⟩⟩
           simp only [St.wsrc, WSrc.nl.injEq] at h
           subst h; simp only [St.pos, nlOff]; split <;> omega
         · split
@@ -1104,7 +1129,7 @@ theorem processIoWrite_oob {D : Desc} (s : St) (i : SvcIn) (hs : s.state = .flus
       have h1 := nl_get_ne off s.position hne'
       split
       · exact ⟨rfl, (Calm.emit s _).oobF o⟩
-      · refine ⟨rfl, ⟨fun _ h => by simp [St.wsrc, St.emit, hsrc] at h, fun _ off' h => ?_, fun _ h => ?_, fun h => by simp [St.ph, St.emit, hs, CState.ph] at h⟩⟩
+      · refine ⟨rfl, ⟨fun _ h => by simp [St.wsrc, St.emit, hsrc] at h, fun _ off' h => ?_, fun _ h => ?_, fun h => by simp [St.ph, St.emit, hs, CState.ph] at h, fun h => by simp [St.waiting, St.emit, hs] at h⟩⟩
         · simp only [St.wsrc, St.emit, hsrc, WSrc.nl.injEq] at h
           subst h; simp only [St.pos, St.emit]; omega
         · simp only [St.wst, St.emit] at h
@@ -1117,10 +1142,10 @@ theorem processIoWrite_oob {D : Desc} (s : St) (i : SvcIn) (hs : s.state = .flus
     · split
       · rename_i h0
         have h0' : s.writeState = 0 := by simpa using h0
-        refine ⟨rfl, ⟨fun _ _ => ?_, fun _ off h => by simp [St.wsrc] at h, fun _ h => by simp [St.wst] at h, fun h => by simp [St.ph, hs, CState.ph] at h⟩⟩
+        refine ⟨rfl, ⟨fun _ _ => ?_, fun _ off h => by simp [St.wsrc] at h, fun _ h => by simp [St.wst] at h, fun h => by simp [St.ph, hs, CState.ph] at h, fun h => by simp [St.waiting, hs] at h⟩⟩
         exact (ofirst h0').congr (by simp)
       · split
-        · refine ⟨rfl, ⟨fun _ h => by simp [St.wsrc] at h, fun _ off h => ?_, fun _ h => by simp [St.wst] at h, fun h => by simp [St.ph, hs, CState.ph] at h⟩⟩
+        · refine ⟨rfl, ⟨fun _ h => by simp [St.wsrc] at h, fun _ off h => ?_, fun _ h => by simp [St.wst] at h, fun h => by simp [St.ph, hs, CState.ph] at h, fun h => by simp [St.waiting, hs] at h⟩⟩
           simp only [St.wsrc, WSrc.nl.injEq] at h
           subst h; simp only [St.pos, nlOff]; split <;> omega
         · split
@@ -1132,7 +1157,7 @@ theorem processIoWrite_oob {D : Desc} (s : St) (i : SvcIn) (hs : s.state = .flus
       have hne' : getB D s .cmd s.position ≠ 0 := by simpa using hne
       split
       · exact ⟨rfl, (Calm.emit s _).oobF o⟩
-      · refine ⟨rfl, ⟨fun _ _ => ?_, fun _ off' h => by simp [St.wsrc, St.emit, hsrc] at h, fun _ h => ?_, fun h => by simp [St.ph, St.emit, hs, CState.ph] at h⟩⟩
+      · refine ⟨rfl, ⟨fun _ _ => ?_, fun _ off' h => by simp [St.wsrc, St.emit, hsrc] at h, fun _ h => ?_, fun h => by simp [St.ph, St.emit, hs, CState.ph] at h, fun h => by simp [St.waiting, St.emit, hs] at h⟩⟩
         · simp only [St.pos, St.emit]
           exact (hn.succ hne').congr (by simp [St.emit])
         · simp only [St.wst, St.emit] at h
@@ -1155,10 +1180,10 @@ theorem unsolicitedProcessIoWrite_oob {D : Desc} (s : St) (i : SvcIn) (hs : s.us
     · split
       · rename_i h0
         have h0' : s.uwriteState = 0 := by simpa using h0
-        refine ⟨rfl, ⟨fun _ _ => ?_, fun _ off h => by simp [St.wsrc] at h, fun _ h => by simp [St.wst] at h, fun h => by simp [St.ph, hs, UState.ph] at h⟩⟩
+        refine ⟨rfl, ⟨fun _ _ => ?_, fun _ off h => by simp [St.wsrc] at h, fun _ h => by simp [St.wst] at h, fun h => by simp [St.ph, hs, UState.ph] at h, fun h => by simp [St.waiting, hs] at h⟩⟩
         exact (ofirst h0').congr (by simp)
       · split
-        · refine ⟨rfl, ⟨fun _ h => by simp [St.wsrc] at h, fun _ off h => ?_, fun _ h => by simp [St.wst] at h, fun h => by simp [St.ph, hs, UState.ph] at h⟩⟩
+        · refine ⟨rfl, ⟨fun _ h => by simp [St.wsrc] at h, fun _ off h => ?_, fun _ h => by simp [St.wst] at h, fun h => by simp [St.ph, hs, UState.ph] at h, fun h => by simp [St.waiting, hs] at h⟩⟩
           simp only [St.wsrc, WSrc.nl.injEq] at h
           subst h; simp only [St.pos, nlOff]; split <;> omega
         · split
@@ -1171,7 +1196,7 @@ theorem unsolicitedProcessIoWrite_oob {D : Desc} (s : St) (i : SvcIn) (hs : s.us
       have h1 := nl_get_ne off s.uposition hne'
       split
       · exact ⟨rfl, (Calm.emit s _).oobF o⟩
-      · refine ⟨rfl, ⟨fun _ h => by simp [St.wsrc, St.emit, hsrc] at h, fun _ off' h => ?_, fun _ h => ?_, fun h => by simp [St.ph, St.emit, hs, UState.ph] at h⟩⟩
+      · refine ⟨rfl, ⟨fun _ h => by simp [St.wsrc, St.emit, hsrc] at h, fun _ off' h => ?_, fun _ h => ?_, fun h => by simp [St.ph, St.emit, hs, UState.ph] at h, fun h => by simp [St.waiting, St.emit, hs] at h⟩⟩
         · simp only [St.wsrc, St.emit, hsrc, WSrc.nl.injEq] at h
           subst h; simp only [St.pos, St.emit]; omega
         · simp only [St.wst, St.emit] at h
@@ -1184,10 +1209,10 @@ theorem unsolicitedProcessIoWrite_oob {D : Desc} (s : St) (i : SvcIn) (hs : s.us
     · split
       · rename_i h0
         have h0' : s.uwriteState = 0 := by simpa using h0
-        refine ⟨rfl, ⟨fun _ _ => ?_, fun _ off h => by simp [St.wsrc] at h, fun _ h => by simp [St.wst] at h, fun h => by simp [St.ph, hs, UState.ph] at h⟩⟩
+        refine ⟨rfl, ⟨fun _ _ => ?_, fun _ off h => by simp [St.wsrc] at h, fun _ h => by simp [St.wst] at h, fun h => by simp [St.ph, hs, UState.ph] at h, fun h => by simp [St.waiting, hs] at h⟩⟩
         exact (ofirst h0').congr (by simp)
       · split
-        · refine ⟨rfl, ⟨fun _ h => by simp [St.wsrc] at h, fun _ off h => ?_, fun _ h => by simp [St.wst] at h, fun h => by simp [St.ph, hs, UState.ph] at h⟩⟩
+        · refine ⟨rfl, ⟨fun _ h => by simp [St.wsrc] at h, fun _ off h => ?_, fun _ h => by simp [St.wst] at h, fun h => by simp [St.ph, hs, UState.ph] at h, fun h => by simp [St.waiting, hs] at h⟩⟩
           simp only [St.wsrc, WSrc.nl.injEq] at h
           subst h; simp only [St.pos, nlOff]; split <;> omega
         · split
@@ -1199,7 +1224,7 @@ theorem unsolicitedProcessIoWrite_oob {D : Desc} (s : St) (i : SvcIn) (hs : s.us
       have hne' : getB D s .uns s.uposition ≠ 0 := by simpa using hne
       split
       · exact ⟨rfl, (Calm.emit s _).oobF o⟩
-      · refine ⟨rfl, ⟨fun _ _ => ?_, fun _ off' h => by simp [St.wsrc, St.emit, hsrc] at h, fun _ h => ?_, fun h => by simp [St.ph, St.emit, hs, UState.ph] at h⟩⟩
+      · refine ⟨rfl, ⟨fun _ _ => ?_, fun _ off' h => by simp [St.wsrc, St.emit, hsrc] at h, fun _ h => ?_, fun h => by simp [St.ph, St.emit, hs, UState.ph] at h, fun h => by simp [St.waiting, St.emit, hs] at h⟩⟩
         · simp only [St.pos, St.emit]
           exact (hn.succ hne').congr (by simp [St.emit])
         · simp only [St.wst, St.emit] at h
@@ -1208,8 +1233,8 @@ theorem unsolicitedProcessIoWrite_oob {D : Desc} (s : St) (i : SvcIn) (hs : s.us
 /-! ### the command machine, state by state -/
 
 theorem OobF.congr {D : Desc} {s s' : St} {f : Fsm} (hph : s'.ph f = s.ph f) (hsrc : s'.wsrc f = s.wsrc f) (hwst : s'.wst f = s.wst f)
-    (hpos : s'.pos f = s.pos f) (hb : SameBuf s s') (o : OobF D s f) : OobF D s' f := by
-  refine ⟨?_, ?_, ?_, ?_⟩
+    (hpos : s'.pos f = s.pos f) (hb : SameBuf s s') (hw : s'.waiting f → s.waiting f) (o : OobF D s f) : OobF D s' f := by
+  refine ⟨?_, ?_, ?_, ?_, fun a => ⟨by rw [hpos]; exact (o.wait (hw a)).pos, by rw [hsrc, hwst]; exact (o.wait (hw a)).src⟩⟩
   · intro a b; rw [hpos]; exact (o.main (hph ▸ a) (hsrc ▸ b)).congr hb
   · intro a off b; rw [hpos]; exact o.nl (hph ▸ a) off (hsrc ▸ b)
   · intro a b; exact (o.first (hph ▸ a) (hwst ▸ b)).congr hb
@@ -1324,13 +1349,13 @@ theorem processHoldState_oob {D : Desc} (hd : DescOk D) (s : St) (hs : s.state =
 theorem processIoWriteWait_oob {D : Desc} (s : St) (hs : s.state = .flushWait) (o : OobF D s .cmd) : OobStep D .cmd s (processIoWriteWait s).1 := by
   unfold processIoWriteWait
   split
-  · exact ⟨rfl, OobF.congr (s := s) (by simp [St.ph, hs, CState.ph]) rfl rfl rfl (by simp) o⟩
+  · exact ⟨rfl, OobF.congr (s := s) (by simp [St.ph, hs, CState.ph]) rfl rfl rfl (by simp) (fun h => by simp [St.waiting] at h) o⟩
   · exact ⟨rfl, o⟩
 
 theorem unsolicitedProcessIoWriteWait_oob {D : Desc} (s : St) (hs : s.ustate = .flushWait) (o : OobF D s .uns) : OobStep D .uns s (unsolicitedProcessIoWriteWait s).1 := by
   unfold unsolicitedProcessIoWriteWait
   split
-  · exact ⟨rfl, OobF.congr (s := s) (by simp [St.ph, hs, UState.ph]) rfl rfl rfl (by simp) o⟩
+  · exact ⟨rfl, OobF.congr (s := s) (by simp [St.ph, hs, UState.ph]) rfl rfl rfl (by simp) (fun h => by simp [St.waiting] at h) o⟩
   · exact ⟨rfl, o⟩
 
 theorem resetState_oob {D : Desc} (s : St) : OobStep D .cmd s ((resetState s).emit .ackDone) := by
@@ -1771,11 +1796,12 @@ theorem printCurrentCmdFullName_oob (D : Desc) (s : St) (x : List Byte) (hp : s.
 
 theorem startFlushRaw_oob {D : Desc} (s : St) (a : After) (next : CmdType) (h : HasNul D s .cmd 0) :
     OobStepA D s { startFlushRaw s a with cmdType := next } := by
-  refine ⟨rfl, ⟨?_, ?_, ?_, ?_⟩, .other (by simp [startFlushRaw, St.emit]) (by simp [startFlushRaw, St.emit])⟩
+  refine ⟨rfl, ⟨?_, ?_, ?_, ?_, ?_⟩, .other (by simp [startFlushRaw, St.emit]) (by simp [startFlushRaw, St.emit])⟩
   · intro _ _; simp only [St.pos, startFlushRaw, St.emit]; exact h.congr (by simp [startFlushRaw, St.emit])
   · intro _ off h2; simp [St.wsrc, startFlushRaw, St.emit] at h2
   · intro _ h2; simp [St.wst, startFlushRaw, St.emit] at h2
   · intro h2; simp [St.ph, startFlushRaw, St.emit, CState.ph] at h2
+  · intro _; exact ⟨by simp [St.pos, startFlushRaw, St.emit], Or.inr ⟨by simp [St.wst, startFlushRaw, St.emit], by simp [St.wsrc, startFlushRaw, St.emit]⟩⟩
 
 theorem printCmdForm_oob {D : Desc} (hd : DescOk D) (t : St) (avail : Bool) (x : List Byte) (next : CmdType)
     (hs : t.state = .printCmd) : OobStepA D t (printCmdForm D t avail x next) := by
